@@ -75,6 +75,14 @@ class HistogramND(HistogramBase):
         if self.dtype.kind in "iu" and np.isnan(missed_array.astype(float)).any():
             # An "unknown" (NaN) marker cannot be stored in an integer array (same as in 1D)
             self._missed = missed_array.astype(float)
+        elif self.dtype.kind in "iu" and np.any(missed_array.astype(float) % 1):
+            # A float weight outside the bins is content too: not to be truncated (same as in 1D)
+            if kwargs.get("dtype") is not None:
+                raise ValueError(
+                    f"Missed weights cannot be stored as {self.dtype} without loss."
+                )
+            self._missed = missed_array.astype(float)
+            self._coerce_dtype(self._missed.dtype)
         else:
             self._missed = missed_array.astype(self.dtype)
 
